@@ -213,6 +213,12 @@ def changed_fields(pre, post):
     for n, v in post.fields.items():
         if not same_value(pre.fields.get(n), v):
             out.append(n)
+            # the capability pair holds two different things: the CA value (.0) and the BDS 1,7 register adverts (.1)
+            pv = pre.fields.get(n)
+            if n == "capability" and getattr(v, "kind", None) == "tuple" and getattr(pv, "kind", None) == "tuple" and len(v.items) == 2 == len(pv.items):
+                for i in (0, 1):
+                    if not same_value(pv.items[i], v.items[i]):
+                        out.append("capability.%d" % i)
     return out
 
 
